@@ -107,8 +107,9 @@ def tree_codes(length):
 
 
 def pick_ty(rng, g):
-    ty = "I" if rng.random() < 0.3 and int_ok(g) else "D"
-    return ty, (0 if ty == "I" else rng.choice([0, 0, -3, 5]))
+    r = rng.random()
+    ty = ("U" if r < 0.1 else "I") if r < 0.4 and int_ok(g) else "D"       # U = unsigned long weights (positive weights in an unsigned type: differences wrap around)
+    return ty, (0 if ty != "D" else rng.choice([0, 0, -3, 5]))
 
 
 def shim_cases(rng, tier):
@@ -861,7 +862,7 @@ def shim_experiment(c, exe, lines, tier, refok, report, opts, label, count=True,
         tl, tio, torig = [], [], []
         for i, (l, d) in enumerate(zip(lines, ds)):
             if d["alg"] in ("fvs_tbb", "iso_tbb") and " RET " in " " + io[i] and d["n"] <= CORE_N:
-                tl.append("A %s %s %d %s" % (d["alg"][:3], d["ty"], d["scale"], " ".join(l.split()[d["gpos"]:]))); tio.append(io[i]); torig.append(l)
+                tl.append("A %s %s %d %s" % (d["alg"][:3], "I" if d["ty"] == "U" else d["ty"], d["scale"], " ".join(l.split()[d["gpos"]:]))); tio.append(io[i]); torig.append(l)
         if tl:
             st = trees_common.run_trees(c, tier, "weight", lines=tl, io=tio, orig=torig, label="TBB tree variant under schedule, " + label)
             c.extra["trees_tbb_replayed"] = c.extra.get("trees_tbb_replayed", 0) + st.get("replayed", 0)
